@@ -1,0 +1,16 @@
+//go:build verif
+
+// Contracts for the verification engine in /verif (comment-only file; it is
+// compiled only with the build tag "verif" and contains no code).
+
+package xfer
+
+//@ func (*XferPipe).Reset
+//@   property C20
+//@   modifies x.filters
+//@   ensures[empty] len(x.filters) == 0
+
+//@ func NewXferPipe
+//@   property C20
+//@   modifies nothing
+//@   ensures[fresh-empty] fresh(result) && len(result.filters) == 0
